@@ -604,6 +604,20 @@ func (c *Ctx) ruleFits(rule string) {
 					}
 					for _, a := range call.Call.Args {
 						if sameValue(a, conv.Call.Args[0]) {
+							// round 17 (C01-CA): ... and the type the check was given is not the type of the pointer where the
+							// conversion goes into the pointee (the same chain of Type / Elem calls at another Elem depth: the
+							// check then looks at a Pointer kind, finds no numeric case and lets every number through)
+							if len(conv.Call.Args) > 1 {
+								ct, cd := typeChainShape(conv.Call.Args[1], 0)
+								for _, ta := range call.Call.Args {
+									if ta == a {
+										continue
+									}
+									if tt, td := typeChainShape(ta, 0); ct != "" && tt == ct && td != cd {
+										return false
+									}
+								}
+							}
 							return true
 						}
 					}
@@ -621,6 +635,45 @@ func (c *Ctx) ruleFits(rule string) {
 	if n == 0 {
 		c.R.Unresolved(rule, "conversions into field types in the struct mapper")
 	}
+}
+
+// typeChainShape: for a reflect.Type worked out by a chain of Type() / Elem() calls from a loaded variable, the variable
+// (as the address it is loaded from) and the number of Elem steps; "" where the value has another form.
+func typeChainShape(v ssa.Value, depth int) (string, int) {
+	if depth > 6 {
+		return "", 0
+	}
+	switch x := v.(type) {
+	case *ssa.Call:
+		name := reflectValueMethod(x)
+		var recv ssa.Value
+		if name != "" && len(x.Call.Args) > 0 {
+			recv = x.Call.Args[0]
+		} else if x.Call.IsInvoke() {
+			name, recv = x.Call.Method.Name(), x.Call.Value
+		}
+		if recv == nil || (name != "Type" && name != "Elem") {
+			return "", 0
+		}
+		base, n := typeChainShape(recv, depth+1)
+		if base == "" {
+			return "", 0
+		}
+		if name == "Elem" {
+			n++
+		}
+		return base, n
+	case *ssa.UnOp:
+		if x.Op == token.MUL {
+			switch a := x.X.(type) {
+			case *ssa.Alloc, *ssa.FreeVar:
+				return "*" + a.Name() + "@" + a.Parent().String(), 0
+			}
+		}
+	case *ssa.Parameter:
+		return x.Name() + "@" + x.Parent().String(), 0
+	}
+	return "", 0
 }
 
 var _ = token.ADD
